@@ -332,7 +332,8 @@ def run(prop, tier, seed, nshards_opt, workdir, t_start, write_evidence) -> int:
 
     mons = ", ".join(f"{k}={v['evaluations']}" for k, v in sorted(col.monitors.items()))
     print(f"{pid} tier={tier} seed={seed}: {col.evaluations} cases, {len(col.nontrivial)} distinct non-trivial, "
-          f"monitors[{mons}], known-finding hits={sum(known_hits.values())}, {wall:.1f}s")
+          f"monitors[{mons}], known-finding hits={sum(known_hits.values())}"
+          + (f", HARNESS-ERRORS={he}" if he else "") + f", {wall:.1f}s")
     for line in out_lines:
         print(line)
     if verdict == "violated":
